@@ -39,7 +39,7 @@ MANIFEST = {
                   "files; "
                   "they rest on C01_header_local / C01_leaf_stable: print-then-parse holds for every entry of the dispatch tables; "
                   "for esds the exactness guard asks that every descriptor size field is in the encoder's form and "
-                  "that no UnknownData was kept, for sgpd that every seig reserved byte is 0, for wvtt that the prefix was read "
+                  "that no UnknownData was kept, for wvtt that the prefix was read, for dac3/dec3 see above; sgpd has no guard any more (the reserved byte of a seig entry is a captured chunk, print-then-parse by replaying the entry loop on the zeroed bytes) "
                   "(C01_guards_refuted: one witness each, also for dac3 and dec3; an esds with UnknownData is "
                   "reproduced but only explored); "
                   "every excluded shape / defect class is witnessed by a *_refuted theorem (file level: C01_file_truncated_mdat_refuted); "
